@@ -138,6 +138,9 @@ func NewEffects(P *Program, S *Specs) *Effects {
 					if al, ok := x.Addr.(*ssa.Alloc); ok && !al.Heap {
 						continue
 					}
+					if storeBaseIsLocalAlloc(x.Addr) {
+						continue // initialisation of an object this function allocated
+					}
 					for _, k := range storeKeys(E.D, x.Addr) {
 						m[k] = true
 					}
@@ -201,7 +204,7 @@ func (E *Effects) callbackMods(args []ssa.Value, out map[string]bool) {
 		switch t := a.Type().Underlying().(type) {
 		case *types.Signature:
 			if mc, ok := a.(*ssa.MakeClosure); ok {
-				for k := range E.Mods[mc.Fn.(*ssa.Function)] {
+				for k := range E.modsOfFn(mc.Fn.(*ssa.Function)) {
 					out[k] = true
 				}
 				continue
@@ -296,7 +299,7 @@ func (E *Effects) callMods(ci ssa.CallInstruction, useContracts bool) map[string
 		out[liveKey] = true
 		return out
 	case *ssa.MakeClosure:
-		for k := range E.Mods[v.Fn.(*ssa.Function)] {
+		for k := range E.modsOfFn(v.Fn.(*ssa.Function)) {
 			out[k] = true
 		}
 		return out
@@ -508,4 +511,38 @@ func lookupNamedType(P *Program, name string) types.Type {
 		}
 	}
 	return found
+}
+
+func storeBaseIsLocalAlloc(addr ssa.Value) bool {
+	for {
+		switch a := addr.(type) {
+		case *ssa.FieldAddr:
+			addr = a.X
+		case *ssa.IndexAddr:
+			if _, ok := a.X.Type().Underlying().(*types.Pointer); ok {
+				addr = a.X
+			} else {
+				return false
+			}
+		case *ssa.Alloc:
+			return true
+		default:
+			return false
+		}
+	}
+}
+
+// modsOfFn resolves bound-method wrappers and thunks to the method they wrap.
+func (E *Effects) modsOfFn(f *ssa.Function) map[string]bool {
+	if m, ok := E.Mods[f]; ok {
+		return m
+	}
+	if obj, ok := f.Object().(*types.Func); ok {
+		if t := E.P.Prog.FuncValue(obj); t != nil {
+			if m, ok := E.Mods[t]; ok {
+				return m
+			}
+		}
+	}
+	return nil
 }
